@@ -27,29 +27,30 @@ CONSTANTS MaxSteps,      \* SpecC02 / SpecG02: length of the histories
           Pols,          \* receiver policies
           Reserve,       \* bits the MDCT layer reserves in a hybrid frame (37)
           DirZero,       \* admit a direction bit that costs no whole bit (see Link!DirCost)
-          TellMax, BudgetMax
-VARIABLES st, n, S, G, d, hist
+          TellMax, BudgetMax,
+          CtlReqs, EncRates, DecSet   \* SpecC02: control requests, encoder rates and decoder configurations explored
+VARIABLES xst, xn, xS, xG, xd, xhist
 
-vars == <<st, n, S, G, d, hist>>
+vars == <<xst, xn, xS, xG, xd, xhist>>
 None == [none |-> TRUE]
 
 -----------------------------------------------------------------------------
 (* SpecHS *)
-HSInit == st = [k |-> "start"] /\ n = 0 /\ S = None /\ G = None /\ d = None /\ hist = <<>>
+HSInit == xst = [k |-> "start"] /\ xn = 0 /\ xS = None /\ xG = None /\ xd = None /\ xhist = <<>>
 HSNext ==
-  /\ st.k = "start"
+  /\ xst.k = "start"
   /\ \E mode \in {MODE_SILK, MODE_HYBRID}, tell \in 1..TellMax, B \in 1..BudgetMax, want \in BOOLEAN,
         c2s \in BOOLEAN, rbWant \in {1, 2, 3, 5, 9, 300}, cbr \in BOOLEAN :
-        st' = [k |-> "case", mode |-> mode, tell |-> tell, B |-> B, want |-> want, c2s |-> c2s, rbWant |-> rbWant, cbr |-> cbr]
-  /\ UNCHANGED <<n, S, G, d, hist>>
+        xst' = [k |-> "case", mode |-> mode, tell |-> tell, B |-> B, want |-> want, c2s |-> c2s, rbWant |-> rbWant, cbr |-> cbr]
+  /\ UNCHANGED <<xn, xS, xG, xd, xhist>>
 SpecHS == HSInit /\ [][HSNext]_vars
 
 RedundancySignalAgrees ==
-  st.k # "start" => RedundancySignalAgreesAt(st.mode, st.tell, st.B, st.want, st.c2s, st.rbWant, st.cbr, Reserve, DirZero)
+  xst.k # "start" => RedundancySignalAgreesAt(xst.mode, xst.tell, xst.B, xst.want, xst.c2s, xst.rbWant, xst.cbr, Reserve, DirZero)
 \* the handshake is exercised in every branch (vacuity guard: these must be VIOLATED)
-SomeRedSilk   == ~(st.k # "start" /\ st.mode = MODE_SILK /\ \E f \in EncFrames(st.mode, st.tell, st.B, st.want, st.c2s, st.rbWant, st.cbr, Reserve, DirZero) : f.red)
-SomeRedHybrid == ~(st.k # "start" /\ st.mode = MODE_HYBRID /\ \E f \in EncFrames(st.mode, st.tell, st.B, st.want, st.c2s, st.rbWant, st.cbr, Reserve, DirZero) : f.red /\ f.main < st.B - f.rb)
-PaddingOK == st.k = "start" => \A len \in {0, 1, 2, 3, 100, 251, 252, 253, 600, 1275} : \A padTo \in {3, 4, 5, 100, 255, 256, 257, 258, 300, 511, 512, 513, 514, 1000, 1276} :
+SomeRedSilk   == ~(xst.k # "start" /\ xst.mode = MODE_SILK /\ \E f \in EncFrames(xst.mode, xst.tell, xst.B, xst.want, xst.c2s, xst.rbWant, xst.cbr, Reserve, DirZero) : f.red)
+SomeRedHybrid == ~(xst.k # "start" /\ xst.mode = MODE_HYBRID /\ \E f \in EncFrames(xst.mode, xst.tell, xst.B, xst.want, xst.c2s, xst.rbWant, xst.cbr, Reserve, DirZero) : f.red /\ f.main < xst.B - f.rb)
+PaddingOK == xst.k = "start" => \A len \in {0, 1, 2, 3, 100, 251, 252, 253, 600, 1275} : \A padTo \in {3, 4, 5, 100, 255, 256, 257, 258, 300, 511, 512, 513, 514, 1000, 1276} :
                 (len + 3 <= padTo) => PaddingInvisible(72, len, padTo)
 
 -----------------------------------------------------------------------------
@@ -81,76 +82,112 @@ PacketTheorems(p, U, Fs, mb, fo, co) ==
   /\ p.len <= mb                                            \* FitsBuffer
 
 PKInit == HSInit
-PKNext == /\ st.k = "start"
+PKNext == /\ xst.k = "start"
           /\ \E U \in Durs, mb \in MbClasses, Fs \in FsSet, dc \in DecConfigs :
-                st' = [k |-> "case", U |-> U, mb |-> mb, Fs |-> Fs, fo |-> dc[1], co |-> dc[2]]
-          /\ UNCHANGED <<n, S, G, d, hist>>
+                xst' = [k |-> "case", U |-> U, mb |-> mb, Fs |-> Fs, fo |-> dc[1], co |-> dc[2]]
+          /\ UNCHANGED <<xn, xS, xG, xd, xhist>>
 SpecPK == PKInit /\ [][PKNext]_vars
 EnvelopeTheorems ==
-  st.k # "start" => \A p \in EnvAll(st.U, st.mb, TRUE) : PacketTheorems(p, st.U, st.Fs, st.mb, st.fo, st.co)
+  xst.k # "start" => \A p \in EnvAll(xst.U, xst.mb, TRUE) : PacketTheorems(p, xst.U, xst.Fs, xst.mb, xst.fo, xst.co)
 \* exactly the durations other than 100 ms have a one-byte packet ("one byte is refused only for 100 ms")
 OneByteOnly100 ==
   \A U \in Units : (\E toc \in 0..255 : PacketOK([hdr |-> <<toc>>, len |-> 1, fill |-> 0], U * 120, 48000)) <=> (U # 40)
-SomeBigEnvelope == ~(st.k # "start" /\ \E p \in EnvAll(st.U, st.mb, TRUE) : Parse(p, FALSE).count = 5)
+SomeBigEnvelope == ~(xst.k # "start" /\ \E p \in EnvAll(xst.U, xst.mb, TRUE) : Parse(p, FALSE).count = 5)
 
 -----------------------------------------------------------------------------
 (* SpecC02: histories of control changes and encode calls.                  *)
-CtlGrid == {<<E!SET_FORCE_CHANNELS, v>> : v \in {OPUS_AUTO, 1, 2}} \cup
-           {<<E!SET_BANDWIDTH, v>> : v \in {OPUS_AUTO, BW_NB, BW_WB, BW_FB}} \cup
-           {<<E!SET_MAX_BANDWIDTH, v>> : v \in {BW_NB, BW_MB, BW_FB}} \cup
-           {<<E!SET_EXPERT_FRAME_DURATION, v>> : v \in {5000, 5001, 5004, 5006, 5009}} \cup
-           {<<E!SET_DTX, v>> : v \in {0, 1}} \cup {<<E!SET_VBR, v>> : v \in {0, 1}} \cup
-           {<<E!SET_FORCE_MODE, v>> : v \in {OPUS_AUTO, MODE_SILK, MODE_CELT}}
+(* The decoder's step depends on the packet only, the set of packets the     *)
+(* encoder may choose from depends on the settings only; SpecPK has already   *)
+(* quantified over EVERY packet of the envelope, so along behaviours the      *)
+(* encoder chooses among class representatives (every mode x bandwidth x      *)
+(* channel count x {coded, not transmitted, TOC-only}) that honour the        *)
+(* settings in force.                                                        *)
+CtlGrid == {c \in {<<E!SET_FORCE_CHANNELS, v>> : v \in {OPUS_AUTO, 1, 2}} \cup
+                  {<<E!SET_BANDWIDTH, v>> : v \in {OPUS_AUTO, BW_NB, BW_WB, BW_FB}} \cup
+                  {<<E!SET_MAX_BANDWIDTH, v>> : v \in {BW_NB, BW_MB, BW_FB}} \cup
+                  {<<E!SET_EXPERT_FRAME_DURATION, v>> : v \in {5000, 5001, 5004, 5006, 5009}} \cup
+                  {<<E!SET_DTX, v>> : v \in {0, 1}} \cup {<<E!SET_VBR, v>> : v \in {0, 1}} \cup
+                  {<<E!SET_FORCE_MODE, v>> : v \in {OPUS_AUTO, MODE_SILK, MODE_CELT}} : c[1] \in CtlReqs}
 
-C02Init == /\ st = [k |-> "run"] /\ n = 0 /\ hist = <<>>
-           /\ \E Fs \in {8000, 48000}, ch \in {1, 2}, app \in {APP_VOIP, APP_LOWDELAY} : S = E!InitS(Fs, ch, app)
-           /\ G = E!InitG
-           /\ \E dc \in DecConfigs : d = D!DecInit(dc[1], dc[2])
+DecSetQuick == {<<8000, 1>>, <<48000, 2>>}
+C02Init == /\ xst = [k |-> "run"] /\ xn = 0 /\ xhist = <<>>
+           /\ \E Fs \in EncRates, ch \in {1, 2}, app \in {APP_VOIP, APP_LOWDELAY} : xS = E!InitS(Fs, ch, app)
+           /\ xG = E!InitG
+           /\ \E dc \in DecSet : xd = D!DecInit(dc[1], dc[2])
 
-Ctl == /\ n < MaxSteps
+Ctl == /\ xn < MaxSteps
        /\ \E c \in CtlGrid :
-            LET outs == E!EncSet(S, G, c[1], c[2])
+            LET outs == E!EncSet(xS, xG, c[1], c[2])
                 ok == {o \in outs : o.ret = OK} IN
-            /\ ok # {} /\ \E o \in ok : S' = o.S /\ G' = o.G
-            /\ hist' = Append(hist, <<"C", c[1], c[2]>>)
-       /\ n' = n + 1 /\ UNCHANGED <<st, d>>
+            /\ ok # {} /\ \E o \in ok : xS' = o.S /\ xG' = o.G
+            /\ xhist' = Append(xhist, <<"C", c[1], c[2]>>)
+       /\ xn' = xn + 1 /\ UNCHANGED <<xst, xd>>
 
-\* the envelope under the settings in force: packets that honour them (EncCtl!EncodeHonours)
-Honours(p, nS) == E!EncodeHonours(S, G, nS, E!PktAttr(Parse(p, FALSE), S.Fs))
-Env(U, mb, sig) == {p \in EnvAll(U, mb, sig = "silence" /\ S.dtx = 1) : Honours(p, U * Q(S.Fs))}
+\* class representatives, computed once (TLCEval forces the table): per duration, mode x bandwidth,
+\* channel count, kind (coded frames / frames not transmitted / TOC-only) and constant-rate size
+RepPkt(U, x, stereo, kind, pad) ==
+  IF kind = "toc" THEN TocOnlyPacket(x[1], x[2], stereo, U)
+  ELSE EncPacket(x[1], x[2], stereo, U, [i \in 1..Cut(x[1], U)[1] |-> IF kind = "dtx" THEN 0 ELSE 3], pad)
+RepRec(U, x, stereo, kind, pad) ==
+  LET p == RepPkt(U, x, stereo, kind, pad)
+      pr == Parse(p, FALSE) IN
+  [U |-> U, kind |-> kind, pad |-> pad, p |-> p, len |-> p.len,
+   attr |-> [f \in FsSet |-> E!PktAttr(pr, f)]]
+RepTable == TLCEval([U \in Units |->
+              {RepRec(U, x, stereo, kp[1], kp[2]) :
+                 x \in {y \in ModeBw : ModeOKFor(y[1], U)}, stereo \in BOOLEAN,
+                 kp \in {<<"coded", 0>>, <<"coded", 3>>, <<"coded", 60>>, <<"dtx", 0>>, <<"toc", 0>>}}])
+
+\* the envelope under the settings in force: representatives that fit and honour them (EncCtl!EncodeHonours)
+Env(U, mb, sig) ==
+  {r \in RepTable[U] :
+     /\ r.len <= mb
+     /\ r.pad = (IF xS.vbr = 0 /\ r.kind = "coded" THEN mb ELSE 0)
+     /\ r.kind = "dtx" => (sig = "silence" /\ xS.dtx = 1)
+     /\ E!EncodeHonours(xS, xG, U * Q(xS.Fs), r.attr[xS.Fs])}
 
 \* the frame_size argument for U units under the duration setting: with a fixed duration the call
 \* consumes that duration (if the argument is long enough); the model submits exactly what is consumed
-UnitsConsumed(U) == IF S.frameDuration = E!FRAMESIZE_ARG THEN U
-                    ELSE E!DurSamples(S.frameDuration, S.Fs) \div Q(S.Fs)
+UnitsConsumed(U) == IF xS.frameDuration = E!FRAMESIZE_ARG THEN U
+                    ELSE E!DurSamples(xS.frameDuration, xS.Fs) \div Q(xS.Fs)
 
+\* budget classes and signal classes only restrict the envelope; the successor state depends on the
+\* packet alone, so the action ranges over the packets some (budget, signal) class admits and records
+\* the smallest such budget
+MbSet == {1, 2, 3, 60}
+Admits(U, r) == {mb \in MbSet : ~(mb = 1 /\ U = 40) /\ \E sig \in {"silence", "loud"} : r \in Env(U, mb, sig)}
 Encode ==
-  /\ n < MaxSteps
-  /\ \E U0 \in Durs, mb \in MbClasses, sig \in {"silence", "loud"} :
-       LET U == UnitsConsumed(U0)
-           nS == U * Q(S.Fs) IN
+  /\ xn < MaxSteps
+  /\ \E U0 \in Durs :
+       LET U == UnitsConsumed(U0) IN
        /\ U0 >= U
-       /\ ~(mb = 1 /\ U = 40)
-       /\ \E p \in Env(U, mb, sig) :
-            LET res == D!DecodeRes(d, p, 48 * D!Q(d), 0) IN
-            /\ st' = [k |-> "enc", p |-> p, U |-> U, mb |-> mb, res |-> res, env |-> TRUE]
-            /\ \E x \in res.nexts : d' = x
-            /\ G' \in E!EncGhostAfterEncode(S, G, p.len, E!PktAttr(Parse(p, FALSE), S.Fs), {-1})
-            /\ hist' = Append(hist, <<"E", U, mb, sig>>)
-  /\ n' = n + 1 /\ UNCHANGED S
+       /\ \E r \in RepTable[U] :
+            LET p == r.p
+                adm == Admits(U, r)
+                res == D!DecodeRes(xd, p, 48 * D!Q(xd), 0) IN
+            /\ adm # {}
+            /\ xst' = [k |-> "enc", p |-> p, U |-> U, mb |-> CHOOSE m \in adm : \A m2 \in adm : m <= m2, res |-> res]
+            /\ \E x \in res.nexts : xd' = x
+            \* (the size of the last coded frame is not read by anything here: one representative)
+            /\ \E g \in E!EncGhostAfterEncode(xS, xG, p.len, r.attr[xS.Fs], {-1}) : g.pfs = r.attr[xS.Fs].fsz /\ xG' = g
+            /\ xhist' = Append(xhist, <<"E", U>>)
+  /\ xn' = xn + 1 /\ UNCHANGED xS
 
 C02Next == Ctl \/ Encode
 SpecC02 == C02Init /\ [][C02Next]_vars
-ViewC02 == <<n, S, G, d>>
+\* fields that are written but never read by the envelope or the decoder contract are left out of the view
+ViewC02 == <<xn, xS, [xG EXCEPT !.pfs = 0], [xd EXCEPT !.lastDur = 0]>>
 
-StepTheorems ==
-  (st.k # "run") =>
-     /\ PacketOK(st.p, st.U * Q(S.Fs), S.Fs)
-     /\ st.res.ok /\ st.res.n = st.U * D!Q(d)
-     /\ st.p.len <= st.mb
-     /\ D!RetContractOf(st.res, 48 * D!Q(d))
-StepOK == [][(st' # st) => StepTheorems']_vars
-DecTypeOK == D!DecTypeOK(d)
+\* checked on EVERY transition (also those that lead to a state already seen)
+EncodeStepOK ==
+  (xst'.k = "enc" /\ xn' # xn) =>
+     LET x == xst' IN
+     /\ PacketOK(x.p, x.U * Q(xS.Fs), xS.Fs)                        \* EveryPacketParses, DurationMatches
+     /\ x.res.ok /\ x.res.n = x.U * D!Q(xd)                        \* DecoderAcceptsAll
+     /\ x.p.len <= x.mb
+     /\ D!RetContractOf(x.res, 48 * D!Q(xd)) /\ D!LastDurTracksOf(xd, x.res)
+StepOK == [][EncodeStepOK]_vars
+DecTypeOK == D!DecTypeOK(xd)
 \* whatever the settings, for every duration the call can take and every buffer of two bytes or more
 \* (one byte unless 100 ms) there is a packet that honours all of them: "succeeds" is satisfiable
 EnvelopeNonEmpty ==
@@ -164,20 +201,20 @@ CtlClasses == {"bitrate", "vbr", "cvbr", "complexity", "bandwidth", "maxbw", "fo
                "dtx", "lsb", "pred", "pinv", "dur", "signal", "reset"}
 DurClasses == {"short", "10", "20", "40-60", "80-120"}
 BudClasses == {"tiny", "edge", "mid", "big"}
-G02Init == st = [k |-> "gen"] /\ n = 0 /\ S = None /\ G = None /\ d = None /\ hist = <<>>
-G02Next == /\ n < MaxSteps
-           /\ \/ \E c \in CtlClasses : /\ (hist = <<>> \/ hist[Len(hist)] # <<"C", c>>) /\ n + 1 < MaxSteps
-                                      /\ hist' = Append(hist, <<"C", c>>)
-              \/ \E dc \in DurClasses, bc \in BudClasses : hist' = Append(hist, <<"E", dc, bc>>)
-           /\ n' = n + 1 /\ UNCHANGED <<st, S, G, d>>
+G02Init == xst = [k |-> "gen"] /\ xn = 0 /\ xS = None /\ xG = None /\ xd = None /\ xhist = <<>>
+G02Next == /\ xn < MaxSteps
+           /\ \/ \E c \in CtlClasses : /\ (xhist = <<>> \/ xhist[Len(xhist)] # <<"C", c>>) /\ xn + 1 < MaxSteps
+                                      /\ xhist' = Append(xhist, <<"C", c>>)
+              \/ \E dc \in DurClasses, bc \in BudClasses : xhist' = Append(xhist, <<"E", dc, bc>>)
+           /\ xn' = xn + 1 /\ UNCHANGED <<xst, xS, xG, xd>>
 SpecG02 == G02Init /\ [][G02Next]_vars
-EmitG02 == (n = MaxSteps) => PrintT("HIST " \o ToString(hist))
+EmitG02 == (xn = MaxSteps) => PrintT("HIST " \o ToString(xhist))
 
 -----------------------------------------------------------------------------
 (* SpecC09: the lossy channel.                                              *)
-(*   st    [pol, U, kind, i, owed, pos, tok, ended, calls]                    *)
-(*   hist  the fates so far (TRUE = lost)                                     *)
-(*   d     decoder state                                                      *)
+(*   xst    [pol, U, kind, i, owed, pos, tok, ended, calls]                    *)
+(*   xhist  the fates so far (TRUE = lost)                                     *)
+(*   xd     decoder state                                                      *)
 Kinds == {"silk", "hybrid", "celt", "dtx"}
 KindOK(kind, U) == (kind = "celt") \/ U >= 4
 
@@ -195,7 +232,7 @@ StreamPacket(kind, U, i) ==
 TokOf(kind, U, i) == IF StreamPacket(kind, U, i).len <= 2 THEN 0 ELSE i + 1
 FecTok == -1
 
-\* apply a sequence of calls to the decoder: set of <<d', results>> (prevRedundancy is guessed)
+\* apply a sequence of calls to the decoder: set of <<xd', results>> (prevRedundancy is guessed)
 RECURSIVE Apply(_, _, _, _)
 Apply(ds, cs, kind, U) ==
   IF cs = <<>> THEN ds
@@ -211,62 +248,62 @@ Apply(ds, cs, kind, U) ==
                               ELSE IF c.t = "F" /\ res.out = "fec" THEN FecTok ELSE 0] : y \in res.nexts}
                     : x \in ds}, Tail(cs), kind, U)
 
-C09Init == /\ n = 0 /\ S = None /\ G = None /\ hist = <<>>
+C09Init == /\ xn = 0 /\ xS = None /\ xG = None /\ xhist = <<>>
            /\ \E pol \in Pols, U \in Durs, kind \in Kinds :
                 /\ KindOK(kind, U) /\ (pol = "DX" <=> kind = "dtx")
-                /\ st = [k |-> "rx", pol |-> pol, U |-> U, kind |-> kind, owed |-> 0, pos |-> 0, tok |-> 0, ended |-> FALSE,
+                /\ xst = [k |-> "rx", pol |-> pol, U |-> U, kind |-> kind, owed |-> 0, pos |-> 0, tok |-> 0, ended |-> FALSE,
                          ok |-> TRUE, fecok |-> TRUE, calls |-> <<>>]
-           /\ \E fo \in {8000, 48000} : d = D!DecInit(fo, 1)
+           /\ \E fo \in {8000, 48000} : xd = D!DecInit(fo, 1)
 
 Step(r, owed2, calls) ==
-  /\ d' = r.d
-  /\ st' = [st EXCEPT !.owed = owed2, !.pos = st.pos + r.units, !.tok = r.tok, !.ok = r.ok, !.fecok = r.fecok, !.calls = calls]
+  /\ xd' = r.d
+  /\ xst' = [xst EXCEPT !.owed = owed2, !.pos = xst.pos + r.units, !.tok = r.tok, !.ok = r.ok, !.fecok = r.fecok, !.calls = calls]
 
-Start(x) == {[d |-> x, ok |-> TRUE, fecok |-> TRUE, units |-> 0, tok |-> st.tok]}
+Start(x) == {[d |-> x, ok |-> TRUE, fecok |-> TRUE, units |-> 0, tok |-> xst.tok]}
 
-Deliver == /\ n < K /\ ~st.ended
-           /\ LET o == OnDeliver(st.pol, st.owed, n, st.U) IN
-              \E r \in Apply(Start(d), o[1], st.kind, st.U) : Step(r, o[2], o[1])
-           /\ hist' = Append(hist, FALSE) /\ n' = n + 1 /\ UNCHANGED <<S, G>>
-Drop ==    /\ n < K /\ ~st.ended
-           /\ LET o == OnDrop(st.pol, st.owed, st.U) IN
-              \E r \in Apply(Start(d), o[1], st.kind, st.U) : Step(r, o[2], o[1])
-           /\ hist' = Append(hist, TRUE) /\ n' = n + 1 /\ UNCHANGED <<S, G>>
-EndOfStream == /\ n = K /\ ~st.ended
-               /\ LET o == OnEnd(st.pol, st.owed, st.U) IN
-                  \E r \in Apply(Start(d), o[1], st.kind, st.U) :
-                     /\ d' = r.d
-                     /\ st' = [st EXCEPT !.owed = 0, !.pos = st.pos + r.units, !.tok = r.tok, !.ok = r.ok, !.fecok = r.fecok,
+Deliver == /\ xn < K /\ ~xst.ended
+           /\ LET o == OnDeliver(xst.pol, xst.owed, xn, xst.U) IN
+              \E r \in Apply(Start(xd), o[1], xst.kind, xst.U) : Step(r, o[2], o[1])
+           /\ xhist' = Append(xhist, FALSE) /\ xn' = xn + 1 /\ UNCHANGED <<xS, xG>>
+Drop ==    /\ xn < K /\ ~xst.ended
+           /\ LET o == OnDrop(xst.pol, xst.owed, xst.U) IN
+              \E r \in Apply(Start(xd), o[1], xst.kind, xst.U) : Step(r, o[2], o[1])
+           /\ xhist' = Append(xhist, TRUE) /\ xn' = xn + 1 /\ UNCHANGED <<xS, xG>>
+EndOfStream == /\ xn = K /\ ~xst.ended
+               /\ LET o == OnEnd(xst.pol, xst.owed, xst.U) IN
+                  \E r \in Apply(Start(xd), o[1], xst.kind, xst.U) :
+                     /\ xd' = r.d
+                     /\ xst' = [xst EXCEPT !.owed = 0, !.pos = xst.pos + r.units, !.tok = r.tok, !.ok = r.ok, !.fecok = r.fecok,
                                          !.calls = o[1], !.ended = TRUE]
-               /\ UNCHANGED <<n, S, G, hist>>
-Done == st.ended /\ UNCHANGED vars        \* the only state without a real successor
+               /\ UNCHANGED <<xn, xS, xG, xhist>>
+Done == xst.ended /\ UNCHANGED vars        \* the only state without a real successor
 
 C09Next == Deliver \/ Drop \/ EndOfStream \/ Done
 SpecC09 == C09Init /\ [][C09Next]_vars
 
-DurationsExact == st.ok                          \* every call so far returned exactly what it was asked for
-TimelineExact  == /\ st.pos + st.owed * st.U = n * st.U          \* audio owed is bounded and nothing is lost or doubled
-                  /\ st.owed <= OwedMax(st.pol)
-                  /\ st.ended => st.pos = K * st.U
+DurationsExact == xst.ok                          \* every call so far returned exactly what it was asked for
+TimelineExact  == /\ xst.pos + xst.owed * xst.U = xn * xst.U          \* audio owed is bounded and nothing is lost or doubled
+                  /\ xst.owed <= OwedMax(xst.pol)
+                  /\ xst.ended => xst.pos = K * xst.U
 FecOnlyWhenPossible ==
-  /\ st.fecok                                     \* in-band data is used exactly when it can be
-  /\ \A j \in 1..Len(st.calls) : st.calls[j].t = "F" =>       \* FEC is only asked of a packet that has arrived
-        /\ st.calls[j].i + 1 <= Len(hist) /\ ~hist[st.calls[j].i + 1]
-        /\ st.calls[j].u \in {st.U, 2 * st.U}
+  /\ xst.fecok                                     \* in-band data is used exactly when it can be
+  /\ \A j \in 1..Len(xst.calls) : xst.calls[j].t = "F" =>       \* FEC is only asked of a packet that has arrived
+        /\ xst.calls[j].i + 1 <= Len(xhist) /\ ~xhist[xst.calls[j].i + 1]
+        /\ xst.calls[j].u \in {xst.U, 2 * xst.U}
 \* a packet that arrives is decoded with the encoder's range, whatever was lost or recovered before it
-GoodPacketsUnaffected == (n > 0 /\ ~st.ended /\ ~hist[n]) => st.tok = TokOf(st.kind, st.U, n - 1)
-ScheduleAgrees == st.ended => LET s == FullSchedule(st.pol, hist, 0, st.U) IN ScheduleUnits(s, st.U) = K * st.U
-C09TypeOK == D!DecTypeOK(d)
+GoodPacketsUnaffected == (xn > 0 /\ ~xst.ended /\ ~xhist[xn]) => xst.tok = TokOf(xst.kind, xst.U, xn - 1)
+ScheduleAgrees == xst.ended => LET s == FullSchedule(xst.pol, xhist, 0, xst.U) IN ScheduleUnits(s, xst.U) = K * xst.U
+C09TypeOK == D!DecTypeOK(xd)
 \* vacuity guards (must be VIOLATED): in-band FEC data is really used somewhere; a two-packet FEC call happens
-SomeFecUsed == ~(st.tok = FecTok)
-SomeDoubleFec == ~(\E j \in 1..Len(st.calls) : st.calls[j].t = "F" /\ st.calls[j].u = 2 * st.U)
+SomeFecUsed == ~(xst.tok = FecTok)
+SomeDoubleFec == ~(\E j \in 1..Len(xst.calls) : xst.calls[j].t = "F" /\ xst.calls[j].u = 2 * xst.U)
 
 -----------------------------------------------------------------------------
 (* SpecG09: the call schedules for replay: every fate pattern of K packets   *)
 (* (after five delivered ones) x policy, for each duration class.            *)
-G09Init == st = [k |-> "gen"] /\ n = 0 /\ S = None /\ G = None /\ d = None /\ hist = <<>>
-G09Next == /\ n < K /\ \E b \in BOOLEAN : hist' = Append(hist, b)
-           /\ n' = n + 1 /\ UNCHANGED <<st, S, G, d>>
+G09Init == xst = [k |-> "gen"] /\ xn = 0 /\ xS = None /\ xG = None /\ xd = None /\ xhist = <<>>
+G09Next == /\ xn < K /\ \E b \in BOOLEAN : xhist' = Append(xhist, b)
+           /\ xn' = xn + 1 /\ UNCHANGED <<xst, xS, xG, xd>>
 SpecG09 == G09Init /\ [][G09Next]_vars
 Five == <<FALSE, FALSE, FALSE, FALSE, FALSE>>
 Tok(c) == IF c.t = "P" THEN "P" \o ToString(c.u)
@@ -277,6 +314,6 @@ Toks(cs) == IF cs = <<>> THEN "" ELSE Tok(Head(cs)) \o " " \o Toks(Tail(cs))
 B2S(b) == IF b THEN "1" ELSE "0"
 RECURSIVE Bits(_)
 Bits(f) == IF f = <<>> THEN "" ELSE B2S(Head(f)) \o Bits(Tail(f))
-EmitG09 == (n = K) => \A U \in Durs, pol \in Pols :
-              PrintT("SCHED " \o pol \o " " \o ToString(U) \o " " \o Bits(hist) \o " | " \o Toks(FullSchedule(pol, Five \o hist, 0, U)))
+EmitG09 == (xn = K) => \A U \in Durs, pol \in Pols :
+              PrintT("SCHED " \o pol \o " " \o ToString(U) \o " " \o Bits(xhist) \o " | " \o Toks(FullSchedule(pol, Five \o xhist, 0, U)))
 =============================================================================
